@@ -273,5 +273,8 @@ Extraction "model.ml"
   Calc.run_ev
   Policy.chain
   Policy.sched_vectorised
+  BasicSender.calls
+  BasicSender.nstop
+  BasicSender.badstop
   (*END*).
 Cd "../coq".
